@@ -10,3 +10,4 @@ import ParsleyVerif.Props.C07
 #print axioms PV.Slice.c07_pinned_corrupts
 #print axioms PV.Slice.c07_trim_shared_mutates
 #print axioms PV.Slice.c07_source_facts
+#print axioms PV.Slice.c07_source_facts_ast
